@@ -28,6 +28,8 @@ JOURNAL = """2024-01-05 'one
  x  1
  a:b  -1
 """
+# the same journal with a tag that the (empty) chart of tags does not declare: acceptable only with strict mode off
+JOURNAL_TAGGED = JOURNAL.replace(" # uuid: 22222222-2222-4222-8222-222222222222\n", " # uuid: 22222222-2222-4222-8222-222222222222\n # tags: undeclared\n")
 PRICES = "P 2024-01-01 ACME 2 EUR\nP 2024-02-01 ACME 3 EUR\nP 2024-01-01 USD 0.9 EUR\n"
 ACCOUNTS = 'accounts = [ "a", "a:b", "e:c", "x", "Equity:Balance" ]\n'
 ACCOUNTS_NO_EQ = 'accounts = [ "a", "a:b", "e:c", "x" ]\n'
@@ -41,7 +43,7 @@ def rand_file(r):
             "accounts": r.choice([None, None] + SELS), "bal": r.choice([None, None] + SELS), "balgrp": r.choice([None, None] + SELS),
             "reg": r.choice([None, None] + SELS), "eq": r.choice([None, None] + SELS),
             "commodity": r.choice([None, "EUR", "EUR", "USD"]), "lookup": r.choice([0, 0, 1, 2]), "db": r.random() < 0.7,
-            "group_by": r.randrange(5), "eq_declared": r.random() < 0.6}
+            "group_by": r.randrange(5), "eq_declared": r.random() < 0.6, "tagged": r.random() < 0.3}
 
 
 def rand_cli(r, p=0.35):
@@ -166,7 +168,7 @@ def g_eff(s):
 def write_world(base, f):
     shutil.rmtree(base, ignore_errors=True)
     os.makedirs(os.path.join(base, "txns"))
-    open(os.path.join(base, "txns", "j.txn"), "w").write(JOURNAL)
+    open(os.path.join(base, "txns", "j.txn"), "w").write(JOURNAL_TAGGED if f.get("tagged") else JOURNAL)
     open(os.path.join(base, "tackler.toml"), "w").write(toml_of(f))
     open(os.path.join(base, "accounts.toml"), "w").write(ACCOUNTS if f.get("eq_declared", True) else ACCOUNTS_NO_EQ)
     open(os.path.join(base, "commodities.toml"), "w").write(COMMS)
@@ -233,6 +235,38 @@ def input_scenarios(run):
              conf("s9b", storage="git", git=("repo", sha1, "j", "jrn")))
         pair("git_repository_suffix", conf("s7a", git=("nonexistent", "main", "x", "jrn")),
              ["--input.git.repository", os.path.join(root, "repo"), "--input.git.dir", "j", "--input.git.ref", "main"], conf("s7b", storage="git", git=G))
+    finally:
+        shutil.rmtree(root, ignore_errors=True)
+    return out
+
+
+def strict_scenarios(run):
+    root = os.path.join(CACHE, "c19s-%d" % os.getpid())
+    shutil.rmtree(root, ignore_errors=True)
+    variants = {
+        "undeclared-tag": JOURNAL_TAGGED,
+        "undeclared-account": JOURNAL.replace(" x  1\n", " not:declared  1\n"),
+        "undeclared-commodity": JOURNAL.replace(" a  2.5 EUR\n e:c  -2.5 EUR\n", " a  2.5 XYZ\n e:c  -2.5 XYZ\n"),
+        "undeclared-implicit-last-account": JOURNAL.replace(" x  1\n a:b  -1\n", " x  1\n not:declared\n"),
+    }
+    out = []
+    try:
+        k = 0
+        for vname, text in variants.items():
+            for file_strict in (False, True):
+                for cli_strict in (False, True):
+                    f = {"strict": file_strict, "audit": False, "reports": ["balance"], "exports": [], "accounts": None, "bal": None,
+                         "balgrp": None, "reg": None, "eq": None, "commodity": None, "lookup": 0, "db": False, "group_by": 2, "eq_declared": True}
+                    a, b = os.path.join(root, "a%d" % k), os.path.join(root, "b%d" % k)
+                    write_world(a, f)
+                    open(os.path.join(a, "txns", "j.txn"), "w").write(text)
+                    fm = dict(f, strict=cli_strict)
+                    write_world(b, fm)
+                    open(os.path.join(b, "txns", "j.txn"), "w").write(text)
+                    ra = run_cli(["--config", os.path.join(a, "tackler.toml"), "--strict.mode", "true" if cli_strict else "false"])
+                    rb = run_cli(["--config", os.path.join(b, "tackler.toml")])
+                    out.append(("%s/file=%s/cli=%s" % (vname, file_strict, cli_strict), ra, rb))
+                    k += 1
     finally:
         shutil.rmtree(root, ignore_errors=True)
     return out
@@ -351,6 +385,16 @@ def main(run):
                           {"file": f, "cli_options": c, "command_line": cli_args(c, "<dir>"), "config_toml": toml_of(f),
                            "merged_config_toml": toml_of(merged(f, c)), "exit_with_options": rc1, "exit_with_merged_file": rc2,
                            "stdout_with_options": so1[:3000], "stdout_with_merged_file": so2[:3000], "stderr": (se1[-300:], se2[-300:])})
+    # ---- (d) strict mode from the file vs from the command line, on journals that use an undeclared
+    #      tag / account / commodity: every use of strict mode must follow the effective value
+    for name, a, b in strict_scenarios(run):
+        run.cov["evaluations"] += 1
+        (rc1, so1, se1), (rc2, so2, se2) = a, b
+        distinct.add((name, rc1 == 0))
+        if not ((rc1 == 0) == (rc2 == 0) and (rc1 != 0 or so1 == so2)):
+            run.violation("strict-mode scenario '%s': --strict.mode and the same value written into the file give different results" % name,
+                          {"scenario": name, "exit_with_option": rc1, "exit_with_file": rc2, "stdout_with_option": so1[:1500],
+                           "stdout_with_file": so2[:1500], "stderr": (se1[-300:], se2[-300:])})
     # ---- (c) input storage / location options vs the same values in the file
     for name, a, b in input_scenarios(run):
         run.cov["evaluations"] += 1
